@@ -244,13 +244,16 @@ def top_is_expr_level(e):
     return e[0] == "op" and e[1] in EXPR_OPS
 
 
+SPLIT_SAFE_RENDER = [True]
+
+
 def render(e, rng, p_paren=0.6):
     """source tokens for an expression tree (redundant parentheses at random; without them the parser decides)"""
     k = e[0]
     def sub(c, force=False, simple_only=False):
         t = render(c, rng, p_paren)
         need = c[0] in ("op", "neg", "not")
-        if (need and (force or rng.random() < p_paren or has_splittable(c))) or (simple_only and contains_expr_level(c)):
+        if (need and (force or rng.random() < p_paren or (SPLIT_SAFE_RENDER[0] and has_splittable(c)))) or (simple_only and contains_expr_level(c)):
             return [S("(")] + t + [S(")")]
         if not need and rng.random() < 0.04:
             return [S("(")] + t + [S(")")]
@@ -323,8 +326,9 @@ FUNCS = [("ABS", 1), ("SIZEOF", 1), ("EXISTS", 1), ("NVL", 2), ("LENGTH", 1), ("
 
 
 class Gen:
-    def __init__(self, rng, feats=None):
+    def __init__(self, rng, feats=None, split_safe=True):
         self.rng = rng
+        self.split_safe = split_safe      # keep splittable string literals out of operand positions that bind tighter than +
         self.n = 0
         self.feats = feats if feats is not None else {}
 
@@ -514,6 +518,8 @@ class Gen:
                 ws.append((self.label(), we))
             ents.append((en, attrs, ws))
         sc["entities"] = ents
+        if not self.split_safe:
+            return sc
         sc["consts"] = [(n, ty, keep_split_safe(e)) for n, ty, e in sc["consts"]]
         sc["types"] = [(n, ty, [(l, keep_split_safe(e)) for l, e in ws]) for n, ty, ws in sc["types"]]
         sc["entities"] = [(n, [(an, o, ty, None if i is None else keep_split_safe(i)) for an, o, ty, i in attrs],
